@@ -8,7 +8,7 @@ from lib.core import Outcome, run_case, fnum, pct
 ID = "C13"
 LEVEL = "exploration"
 RULE = ("Hypothesis generates sequences (<= 25 operations) over {add variable (pool: controlled z, distance, rmsd with fit, "
-        "extended Lagrangian, total-force output, coordNum with pair list), add bias of any zoo type on existing variables, "
+        "extended Lagrangian, total-force output, coordNum with pair list, distance with a named atom group, distance over atomsOfGroup of a live named group; and a definition re-using a registered group name, which must be refused and leave no trace), add bias of any zoo type on existing variables, "
         "delete bias, delete variable (cascades), cv reset, step}. Oracles: (1) differential - at every step at which no "
         "doomed object is alive, energies/forces/values are bitwise those of a run of the same sequence with the creation of "
         "later-deleted objects removed; per-object values/energies of survivors are compared at every step; (2) the number "
@@ -38,6 +38,21 @@ def var_pool(i, kind, p):
         b = ((i + 1) % 4) + 1
         return name, ("colvar {\n  name %s\n  width 0.5\n  lowerBoundary 0\n  upperBoundary 12\n  distance {\n    group1 { atomNumbers %d }\n"
                       "    group2 { atomNumbers %d %d }\n  }\n}" % (name, a, b, 5 + (i % 3))), {a, b, 5 + (i % 3)}
+    if kind == "named":
+        # its first group is registered under a name that later definitions may refer to (atomsOfGroup copies the atoms)
+        b = ((i + 1) % 4) + 1
+        return name, ("colvar {\n  name %s\n  width 0.5\n  lowerBoundary 0\n  upperBoundary 12\n  distance {\n    group1 {\n      name g%d\n"
+                      "      atomNumbers %d %d\n    }\n    group2 { atomNumbers %d }\n  }\n}" % (name, i, a, 5 + (i % 3), b)), {a, b, 5 + (i % 3)}
+    if kind == "ofgroup":
+        gname, gatoms = p["group"]
+        b = 8 if 8 not in gatoms else 7
+        return name, ("colvar {\n  name %s\n  width 0.5\n  lowerBoundary 0\n  upperBoundary 12\n  distance {\n    group1 { atomsOfGroup %s }\n"
+                      "    group2 { atomNumbers %d }\n  }\n}" % (name, gname, b)), set(gatoms) | {b}
+    if kind == "dupgroup":
+        # a definition the library must refuse (group name already registered) and remove again without trace
+        gname, gatoms = p["group"]
+        return name, ("colvar {\n  name %s\n  width 0.5\n  lowerBoundary 0\n  upperBoundary 12\n  distance {\n    group1 {\n      name %s\n"
+                      "      atomNumbers %d 8\n    }\n    group2 { atomNumbers 7 }\n  }\n}" % (name, gname, a)), {a, 7, 8}
     if kind == "rmsd":
         return name, ("colvar {\n  name %s\n  width 0.5\n  lowerBoundary 0\n  upperBoundary 8\n  rmsd {\n    atoms { atomNumbers 1 2 5 6 7 }\n"
                       "    refPositions (0.1, 0.2, 0.3) (1.4, 0.1, -0.2) (0.3, 1.6, 0.4) (-0.2, 0.5, 1.8) (1.2, 1.3, 1.1)\n  }\n}" % name), {1, 2, 5, 6, 7}
@@ -47,7 +62,7 @@ def var_pool(i, kind, p):
     raise KeyError(kind)
 
 
-VAR_KINDS = ["z", "z", "zext", "ztf", "dist", "rmsd", "coord"]
+VAR_KINDS = ["z", "z", "zext", "ztf", "dist", "rmsd", "coord", "named", "ofgroup", "dupgroup"]
 BIAS_KINDS = ["harmonic", "harmonic_moving", "walls", "linear", "abf", "meta", "meta_nogrid", "abmd", "histogram", "opes", "alb"]
 
 
@@ -112,6 +127,7 @@ def plan(spec):
     """interpret the generated operations against a model of the live objects; returns the concrete operation list
     with names, and for every object whether it is ever deleted"""
     live_v, live_b = [], []          # (name, kind, atoms) / (name, kind, vars)
+    groups = []                      # registered group names: (group name, atoms of the group, owning variable)
     out = []
     nv = nb = 0
     doomed = set()
@@ -120,9 +136,27 @@ def plan(spec):
         op = o["op"]
         if op == "addvar":
             nv += 1
-            name, cfg, atoms = var_pool(nv, o["kind"], o)
-            live_v.append((name, o["kind"], atoms))
+            kind = o["kind"]
+            if kind in ("ofgroup", "dupgroup") and not groups:
+                kind = "named"
+            p = dict(o)
+            if kind in ("ofgroup", "dupgroup"):
+                g = groups[o["pick"] % len(groups)]
+                p["group"] = (g[0], g[1])
+            name, cfg, atoms = var_pool(nv, kind, p)
+            if kind == "dupgroup":
+                doomed.add(name)
+                out.append({"op": "rejvar", "name": name, "cfg": cfg})
+                continue
+            if kind == "named":
+                a = (nv % 4) + 1
+                groups.append(("g%d" % nv, sorted({a, 5 + (nv % 3)}), name))
+            live_v.append((name, kind, atoms))
             out.append({"op": "addvar", "name": name, "cfg": cfg, "atoms": sorted(atoms)})
+            if kind == "ofgroup":
+                # where the owner of the group never exists (clean run), the same atoms are listed explicitly
+                out[-1]["owner"] = g[2]
+                out[-1]["cfg_clean"] = cfg.replace("atomsOfGroup %s" % g[0], "atomNumbers %s" % " ".join(str(x) for x in g[1]))
         elif op == "addbias":
             if not live_v:
                 continue
@@ -163,6 +197,7 @@ def plan(spec):
                 continue
             v = live_v.pop(o["pick"] % len(live_v))
             doomed.add(v[0])
+            groups = [g for g in groups if g[2] != v[0]]
             gone = [b for b in live_b if v[0] in b[2]]
             for b in gone:
                 doomed.add(b[0])
@@ -174,6 +209,7 @@ def plan(spec):
             for b in live_b:
                 doomed.add(b[0])
             live_v, live_b = [], []
+            groups = []
             out.append({"op": "reset"})
         else:
             out.append({"op": "step"})
@@ -186,10 +222,12 @@ def build(spec, ops, skip=()):
     for io, o in enumerate(ops):
         op = o["op"]
         L.append("echo op%d" % io)
-        if op in ("addvar", "addbias"):
+        if op in ("addvar", "addbias", "rejvar"):
             if o["name"] in skip:
                 continue
-            L.append("config <<END\n%s\nEND" % o["cfg"])
+            L.append("config <<END\n%s\nEND" % (o["cfg_clean"] if o.get("owner") in skip else o["cfg"]))
+            if op == "rejvar":
+                L.append("clear_error")     # as a scripting host does before its next command
         elif op == "delbias":
             if o["name"] in skip:
                 continue
@@ -231,9 +269,33 @@ def check_seq(spec, ctx, variant="rel"):
     for r, nm in ((rA, "full"), (rB, "clean")):
         if r.crashed:
             return Outcome(False, msg="crash in the %s run rc=%s: %s" % (nm, r.returncode, r.stderr[-700:]), sig="crash", case_text=full)
-    for c in rA.of("config") + rB.of("config"):
-        if c["rc"] != 0:
-            return Outcome(False, msg="generated configuration rejected: %s" % c["errs"], sig="gen_invalid", case_text=full)
+    def configs_by_op(r):
+        out, cur = {}, None
+        for rec in r.recs:
+            if rec.get("t") == "echo":
+                cur = int(rec["token"][2:])
+            elif rec.get("t") == "config" and cur is not None:
+                out[cur] = rec
+        return out
+    cfA, cfB = configs_by_op(rA), configs_by_op(rB)
+    rejected_seen = 0
+    for io, o in enumerate(ops):
+        if o["op"] == "rejvar":
+            if io in cfB:
+                return Outcome(False, msg="harness: rejected definition submitted in the clean run", sig="harness", case_text=full)
+            if cfA[io]["rc"] == 0:
+                return Outcome(False, msg="op%d: variable %s re-uses a registered atom-group name and was accepted (the name was registered by a "
+                               "variable that is still alive)" % (io, o["name"]), sig="duplicate_group_accepted", case_text=full)
+            rejected_seen += 1
+            continue
+        for c, nm in ((cfA.get(io), "full"), (cfB.get(io), "clean")):
+            if c is not None and c["rc"] != 0:
+                other = cfB.get(io) if nm == "full" else cfA.get(io)
+                if other is not None and other["rc"] == 0 and (rejected_seen or nm == "clean"):
+                    return Outcome(False, msg="op%d: definition of %s is refused in the %s run (%s) but accepted in the other one: the two "
+                                   "histories differ only by objects that were defined and removed again" % (io, o.get("name"), nm, c["errs"]),
+                                   sig="identity_acceptance", case_text=full)
+                return Outcome(False, msg="generated configuration rejected: %s" % c["errs"], sig="gen_invalid", case_text=full)
     for sc in rA.of("script") + rB.of("script"):
         if sc["rc"] != 0:
             return Outcome(False, msg="delete command failed: %s %s" % (sc["result"], sc["errs"]), sig="delete_failed", case_text=full)
@@ -268,7 +330,10 @@ def check_seq(spec, ctx, variant="rel"):
     dumpA, dumpB = dumps_by_op(rA), dumps_by_op(rB)
     for iop, o in enumerate(ops):
         op = o["op"]
-        if op == "addvar":
+        if op == "rejvar":
+            deleted_any = True
+            shared_deletion = True      # re-uses a name (and atoms) of a live definition
+        elif op == "addvar":
             live_v[o["name"]] = set(o["atoms"])
             vkind[o["name"]] = "ext" if "extendedLagrangian" in o["cfg"] else "plain"
         elif op == "addbias":
@@ -367,9 +432,10 @@ def check_seq(spec, ctx, variant="rel"):
             return Outcome(False, msg="after '%s %s': %d active atoms, but the live definitions use %d distinct atoms" %
                            (op, o.get("name", ""), na, expect), sig="atoms_not_released", case_text=full)
     kinds = sorted(set(o.get("kind", o["op"]) for o in ops if o["op"] == "addbias"))
+    named = [x for x, fl_ in (("named_group", any("atomsOfGroup" in o.get("cfg", "") for o in ops)), ("rejected_definition", rejected_seen > 0)) if fl_]
     nontrivial = shared_deletion and steps_after_delete >= 1 and interesting
     return Outcome(True, nontrivial=nontrivial, cls=(",".join(kinds), "reset" if any(o["op"] == "reset" for o in ops) else ""),
-                   strata=["bias:" + k for k in kinds] + (["shared_deletion"] if shared_deletion else []) +
+                   strata=["bias:" + k for k in kinds] + (["shared_deletion"] if shared_deletion else []) + named +
                    (["reset"] if any(o["op"] == "reset" for o in ops) else []), case_text=full)
 
 
